@@ -71,7 +71,7 @@ def main():
     seed = int(a[a.index("--seed") + 1]) if "--seed" in a else 20260927
     summary = a[a.index("--summary") + 1] if "--summary" in a else None
     n_scen, n_seeds, rates = (24, 16, ["0.05", "0.4"]) if tier == "quick" else (300, 32, ["0.01", "0.1", "0.5"])
-    if prop in ("C01", "C07", "C13"):
+    if prop in ("C01", "C06", "C07", "C13"):
         # whole-cache scenarios (cache + reloader thread + readers) cost ~1 s per execution under Miri
         n_scen, n_seeds, rates = (10, 8, ["0.05", "0.4"]) if tier == "quick" else (120, 16, ["0.01", "0.1", "0.5"])
     if os.environ.get("VERIF_MIRI_SCENARIOS"):
